@@ -187,6 +187,52 @@ def apply_renames(prog):
     return out
 
 
+def callers_of(prog, f):
+    """non-closure functions of the analysed crates that call f directly (a calling closure counts as its enclosing function)"""
+    out = {}
+    for k, g in prog.fns.items():
+        if g.info["crate"] not in ("marginfi", "marginfi_type_crate", "kamino_mocks", "drift_mocks", "solend_mocks") or "::tests::" in k:
+            continue
+        if not any(c.key == f.key for c in g.calls()):
+            continue
+        hops = 0
+        while g is not None and g.info["kind"] == "Closure" and hops < 4:
+            g = prog.fns.get(g.info.get("closure_of"))
+            hops += 1
+        if g is not None and g.info["kind"] != "Closure" and g.key != f.key:
+            out[g.key] = g
+    return [out[k] for k in sorted(out)]
+
+
+def callers_unchanged(prog, f, fid):
+    """every function that calls helper f today behaves, as a whole (deep form, helper bodies spliced in), exactly like the reviewed
+    version of that caller - and every reviewed caller is still among them or unchanged itself.  Then a changed contract of f (split
+    into two phases, a bool replaced by an enum, a value passed by reference ...) is compensated at every use."""
+    from .kernels import deep_reviewed, deep_sig
+    reviewed = deep_reviewed("CALLERS|" + fid)
+    if not reviewed:
+        return False
+    now = callers_of(prog, f)
+    ids = {fn_id(g): g for g in now}
+    live = {fn_id(g): g for k, g in prog.fns.items() if g.info["kind"] != "Closure"}
+    todo = dict(ids)
+    for gid in reviewed:
+        if gid not in todo and gid in live:
+            todo[gid] = live[gid]
+        elif gid not in todo:
+            return False          # a reviewed caller vanished: its behaviour cannot be compared
+    if not todo:
+        return False
+    for gid, g in todo.items():
+        want = deep_reviewed("C|" + gid)
+        if not want:
+            return False
+        got = deep_sig(prog, g, budget=6.0)
+        if got is None or got != want:
+            return False
+    return True
+
+
 def check_snapshot(ctx, pid):
     prog = ctx.prog
     try:
@@ -231,5 +277,7 @@ def check_snapshot(ctx, pid):
             from .kernels import same_modulo_helper_boundaries
             if same_modulo_helper_boundaries(prog, f, "S|" + fid):
                 ok, diff = True, "ok (equal to the reviewed helper modulo helper boundaries: a callee was extracted / inlined / merged)"
+            elif callers_unchanged(prog, f, fid):
+                ok, diff = True, "ok (the helper's contract changed, every caller as a whole behaves like its reviewed version)"
         ctx.inst(pid + ".S", "helper/" + short, ok, "the complete path table of %s equals the reviewed snapshot" % short, diff or "ok", f.loc(f.raw["span"]))
     return n
